@@ -51,6 +51,10 @@ def path_join_safe(root_directory: str, filename: str):
     if ".." in parts or "." in parts:
         raise ValueError("invalid path")
 
+    # an absolute filename would replace root_directory in os.path.join
+    if filename.startswith("/"):
+        raise ValueError("invalid path")
+
     path = os.path.join(root_directory, filename)
     path = os.path.abspath(path)
 
